@@ -15,7 +15,13 @@ pub type ParserType<'a, R> = Parser<Lexer<Scanner<'a, R>>>;
 
 pub struct Parser<Lexer> {
     pub(super) lexer: Lexer,
+    // Current nesting level of the value being parsed
+    depth: usize,
 }
+
+/// Maximum nesting level of lists, dicts and grids accepted by the parser.
+/// The parser is recursive, without a limit a deeply nested input overflows the stack.
+pub const MAX_NESTING_DEPTH: usize = 128;
 
 impl<'a, R: Read> Parser<Lexer<Scanner<'a, R>>> {
     /// Constructs a [Parser](self::Parser) for the provided [Read](std::io::Read)
@@ -23,12 +29,22 @@ impl<'a, R: Read> Parser<Lexer<Scanner<'a, R>>> {
         let mut lexer = Lexer::make(input)?;
         // Advance lexer to first token
         lexer.read()?;
-        Ok(Parser { lexer })
+        Ok(Parser { lexer, depth: 0 })
     }
 
     /// Parses a Haystack [Value](crate::val::Value) form the provided [Read](std::io::Read)
     /// stream.
     pub fn parse_value(&mut self) -> Result<Value, Error> {
+        if self.depth >= MAX_NESTING_DEPTH {
+            return self.lexer.make_generic_err("Value nesting is too deep");
+        }
+        self.depth += 1;
+        let value = self.parse_nested_value();
+        self.depth -= 1;
+        value
+    }
+
+    fn parse_nested_value(&mut self) -> Result<Value, Error> {
         match &self.lexer.cur.value {
             Some(value) => match value {
                 // Possible Grid ver
